@@ -49,19 +49,48 @@ def ell_regex(want):
     return rx
 
 
+def ell_placements(got, lits):
+    """the same relation by exhaustive placement instead of a backtracking regex (which is exponential in the number
+    of wildcards when the text does not match): the set of positions reachable after placing the pieces so far"""
+    first, last = lits[0], lits[-1]
+    if not got.startswith(first):
+        return False
+    limit = len(got) - len(last)            # the last piece is anchored at the end
+    if limit < len(first) or not got.endswith(last):
+        return False
+    reach = {len(first)}
+    for lit in lits[1:-1]:
+        lo = min(reach)
+        nxt = set()
+        j = got.find(lit, lo)
+        while j != -1 and j + len(lit) <= limit:
+            nxt.add(j + len(lit))
+            j = got.find(lit, j + 1)
+        if not nxt:
+            return False
+        reach = nxt
+    return min(reach) <= limit
+
+
+def _ell(got, want):
+    if want.count('...') <= 3 and len(got) <= 80:
+        return ell_regex(want).match(got) is not None
+    return ell_placements(got, ell_literals(want))
+
+
 def ell_match(got, want):
     """got can be written as the literal pieces in order, first anchored at the start,
     last at the end, anything (also nothing, also newlines) for each '...'"""
     if '...' not in want:
         return got == want
-    return ell_regex(want).match(got) is not None
+    return _ell(got, want)
 
 
 def match(got, want, ellipsis):
     if got == want:
         return True
     if ellipsis and '...' in want:
-        return ell_regex(want).match(got) is not None
+        return _ell(got, want)
     return False
 
 
